@@ -335,10 +335,8 @@ impl<'a> R<'a> {
         let chars: Vec<char> = v.chars().collect();
         let mut parts = 0;
         if self.rng.chance(1, 25) {
-            // the run starts with an empty CDATA section
-            self.out.push_str("<![CDATA[");
-            first = Some(self.out.len());
-            self.out.push_str("]]>");
+            // the run starts with an empty CDATA section: it contributes nothing and is not a part
+            self.out.push_str("<![CDATA[]]>");
             self.feat("cdata-empty-edge");
             parts += 1;
         }
@@ -395,9 +393,7 @@ impl<'a> R<'a> {
             self.text_points.push(self.out.len());
         }
         if self.rng.chance(1, 25) {
-            self.out.push_str("<![CDATA[");
-            last_end = self.out.len();
-            self.out.push_str("]]>");
+            self.out.push_str("<![CDATA[]]>");
             self.feat("cdata-empty-edge");
             parts += 1;
         }
